@@ -159,6 +159,9 @@ Decorate(def, d) ==
          \* a defaulted parameter must be trailing: only when there is no const parameter after it
          [] d = 2 -> IF def.cparams = <<>> THEN [def EXCEPT !.tdefaults[Len(def.tparams)] = "u32"] ELSE def
          [] d = 3 -> [def EXCEPT !.wherec = "A: Clone"]
+         \* d = 4: the const parameters are DECLARED BEFORE the type parameters (`struct S<const N: usize, A>`).  No
+         \* recipe depends on the order of declaration, so the definition is the same record; the generator renders
+         \* definitions whose name ends in "d4" (and their instantiations) with the const parameters first.
          [] OTHER -> def
 
 \* attribute variant v: 0 deep (no attribute), 1 deep_copy, 2 deep + repr(C), 3 zero_copy + repr(C),
@@ -194,6 +197,8 @@ FieldLists == {x \in {<<>>} \cup Singles \cup Pairs \cup Triples : WellFormedIdx
 StructDefs ==
   {GStruct(is, FALSE, v, d) : is \in FieldLists, v \in {0, 1}, d \in {0}}
   \cup {GStruct(is, FALSE, 0, d) : is \in Pairs \cap FieldLists, d \in {1, 2, 3}}
+  \cup {GStruct(is, FALSE, 0, 4) : is \in {x \in Pairs \cap FieldLists : UsesN(x) /\ UsesA(x)}}
+  \cup {GStruct(<<6, 13, 12>>, FALSE, 0, 4), GStruct(<<13, 6>>, TRUE, 0, 4)}
   \cup {GStruct(is, FALSE, 2, 0) : is \in Singles \cap FieldLists}
   \cup {GStruct(is, FALSE, v, 0) : is \in {x \in FieldLists : ZcOk(x)}, v \in {3, 4}}
   \cup {GStruct(is, TRUE, v, 0) : is \in ((Singles \cup {x \in Pairs : x[1] \in {2, 6, 12}}) \cap FieldLists), v \in {0}}
@@ -226,6 +231,8 @@ EnumDefs ==
   \* bounds, defaults and where-clauses on the parameters of enums
   \cup {LET e == GEnum(vs, 0) IN Decorate([e EXCEPT !.name = e.name \o "d" \o NumS(d)], d)
         : vs \in {<<2>>, <<5>>, <<1, 2, 4>>, <<5, 1, 4>>}, d \in {1, 2, 3}}
+  \* const parameter declared before the type parameter (tuple, named and unit variants)
+  \cup {LET e == GEnum(vs, 0) IN Decorate([e EXCEPT !.name = e.name \o "d4"], 4) : vs \in {<<2, 10, 1>>, <<11, 10>>}}
 
 GrammarDefs == StructDefs \cup EnumDefs
 
